@@ -57,3 +57,6 @@ def declare(reg):
         props=["C06", "C07"],
         ghost={"harness": "harness.e2e:Answered"},
     )
+
+    reg.properties.setdefault("C06", {}).setdefault("bounded", []).append(
+        {"name": "answered-e2e", "module": "harness.e2e", "func": "Answered"})
